@@ -182,12 +182,16 @@ type vDB struct {
 	inserted  [][]*x509.Certificate
 	failReads bool // reads may fail (one symbolic outcome per call)
 	queries   []ChainQuery
+	chainsFor func(q ChainQuery) [][]*x509.Certificate // if set: answers Chains
 }
 
 func (d *vDB) Chains(_ context.Context, q ChainQuery) ([][]*x509.Certificate, error) {
 	d.queries = append(d.queries, q)
 	if d.failReads && verif.NondetBool("db.chains-fails") {
 		return nil, errVDB
+	}
+	if d.chainsFor != nil {
+		return d.chainsFor(q), nil
 	}
 	return d.chains, nil
 }
